@@ -298,8 +298,8 @@ Theorem render_template_balanced g ld fuel body glob name :
   scopes (cx r) = [] /\ loops (cx r) = [] /\ tname (cx r) = name.
 Proof.
   unfold render_template.
-  destruct (extend g (fresh_ctx glob name) []) as [c1|] eqn:E; simpl; [|auto].
-  assert (F : frame (fresh_ctx glob name)
+  destruct (extend g (fresh_ctx (depth_limit g) glob name) []) as [c1|] eqn:E; simpl; [|auto].
+  assert (F : frame (fresh_ctx (depth_limit g) glob name)
                     (pop_scope (cx (nodes (render g ld fuel) body c1 empty_buf)))).
   { eapply extend_pop; [exact E|]. apply nodes_frame. apply render_frame. }
   destruct F as (H1 & H2 & H3 & _).
@@ -324,16 +324,17 @@ Proof. simpl. apply render_call_same. Qed.
 Theorem render_tag_isolated g ld fuel tn var args c1 c2 b :
   root_globals c1 = root_globals c2 ->
   copy_depth c1 = copy_depth c2 ->
+  dlimit c1 = dlimit c2 ->
   eval_namespace (eval fuel) c1 args = eval_namespace (eval fuel) c2 args ->
   (forall il ve al, var = Some (il, ve, al) -> eval fuel c1 ve = eval fuel c2 ve) ->
   let r1 := render g ld (S fuel) (NRender tn var args) c1 b in
   let r2 := render g ld (S fuel) (NRender tn var args) c2 b in
   st r1 = st r2 /\ bf r1 = bf r2.
 Proof.
-  intros Hr Hd Ha Hv. simpl. unfold render_render.
+  intros Hr Hd Hl Ha Hv. simpl. unfold render_render.
   destruct (assoc tn ld) as [body|]; simpl; [|auto].
   rewrite Ha. destruct (eval_namespace (eval fuel) c2 args) as [r|nsp]; simpl; [auto|].
-  unfold copy_isolated. rewrite Hr, Hd.
+  unfold copy_isolated. rewrite Hr, Hd, Hl.
   destruct (depth_limit g <? copy_depth c2)%Z; simpl; [auto|].
   destruct var as [[[il ve] al]|]; simpl; [|auto].
   rewrite (Hv il ve al eq_refl). destruct (eval fuel c2 ve); simpl; auto.
